@@ -10,6 +10,9 @@ import Driver.Common
              `S <n> <a> <b> <c>`  Slice_Arg / slice_stack only: prints  O range=<start>,<stop>,<step> len=<Range_Len>
              `G <i> <k> <expr>`   foreach whose body calls get(obj, k) right after item number i (from 0):  O g=[items] ge=<end>
              `Z <k> <expr>`       zip(x, …, x) with the ONE object x = <expr> k times (k ≥ 1): as W, without get
+             `M <k> <expr>`       mem(obj, $I(k)) for a Range, a Slice, a Filter or a Map whose elements are Ints:  O mem=<1|0|ub|hang|fuel>
+             `R <a> <b> <c>`      the Range (a, b, c) on int64_t (`rangeI64`: a signed overflow is `ub`), walked as W without get:
+                                  O f=[…] fe=… b=[…] be=… len=<n|ub> get=- gx=-
    expr ::= (array v*) | (list v*) | (tuple id*) | (table s*) with s = `.` | key | (tree S) with S = `.` | (S k S) | (rtree k*)
           | (range a*) | (slice E a*) | (reverse E) | (zip E*) | (enum E) | (filter E m r) | (map E a b)       a = int | `_`
           | (mut list (v*) sop*) | (mut array (v*) sop*) | (mut table (k*) kop*) | (mut tree (k*) kop*)
@@ -193,6 +196,22 @@ def reportZ (k : Nat) (e : Expr) : String :=
   | .ok I => reportI (.ok (embI (zipSameI I k) Val.tup)) false
 
 
+/-- `M k e` -/
+def reportM (k : Int) (e : Expr) : String :=
+  match memOf e k walkCap with
+  | none => "O bad-op"
+  | some (.error m) => s!"O construct={excOf m}"
+  | some (.ok r) => s!"O mem={r.show}"
+
+/-- `R a b c`: the Range on int64_t -/
+def reportR (a b c : Int) : String :=
+  if !(isI64 a && isI64 b && isI64 c) then "O bad-op" else
+  let I := embI (rangeI64 a b c) Val.int
+  let (f, fe) := I.forward walkCap
+  let (b', be) := I.backward walkCap
+  let lenS := if rangeLenOk a b c then toString (rangeLen a b c) else "ub"
+  s!"O f={showItems f fe} fe={fe.show} b={showItems b' be} be={be.show} len={lenS} get=- gx=-"
+
 def outStr (os : List MOut) : String := ":" ++ String.join (os.map MOut.char)
 def ints (l : List Int) : String := "[" ++ " ".intercalate (l.map toString) ++ "]"
 
@@ -255,6 +274,17 @@ def main (args : List String) : IO Unit := do
         match k.toNat?, IterDrv.parseExpr rest with
         | some k, some (e, []) => if k = 0 ∨ k > 6 then IO.println "O bad-op" else IO.println (IterDrv.reportZ k e)
         | _, _ => IO.println "O bad-op"
+      | _ => IO.println "O bad-op"
+    else if l.startsWith "M " then
+      match IterDrv.tokenize (l.drop 2).toString with
+      | k :: rest =>
+        match k.toInt?, IterDrv.parseExpr rest with
+        | some k, some (e, []) => IO.println (IterDrv.reportM k e)
+        | _, _ => IO.println "O bad-op"
+      | _ => IO.println "O bad-op"
+    else if l.startsWith "R " then
+      match (Driver.words (l.drop 2).toString).mapM String.toInt? with
+      | some [a, b, c] => IO.println (IterDrv.reportR a b c)
       | _ => IO.println "O bad-op"
     else if l.startsWith "L " then
       match IterDrv.parseExpr (IterDrv.tokenize (l.drop 2).toString) with
